@@ -37,6 +37,7 @@ use midnight_proofs::{
 };
 use num_bigint::BigUint;
 use num_traits::One;
+#[cfg_attr(midnight_zk_verif, allow(unused_imports))]
 use rand::rngs::OsRng;
 #[cfg(any(test, feature = "testing"))]
 use {
@@ -1812,7 +1813,11 @@ where
         // TODO: Maybe we should check that the sampled r will not have a completeness
         // problem. The probability should be overwhelming, but if the bad event
         // happened, the proof would fail. We could sample another r here instead.
+        #[cfg(not(midnight_zk_verif))]
         let r_dlog = C::ScalarField::random(OsRng);
+        // (verification hook: the draw can be seeded per thread, see midnight_proofs::verif_hooks)
+        #[cfg(midnight_zk_verif)]
+        let r_dlog = midnight_proofs::verif_hooks::with_entropy(|rng| C::ScalarField::random(rng));
         let r_unassigned = C::CryptographicGroup::mul(C::CryptographicGroup::generator(), r_dlog);
         let r: AssignedForeignPoint<F, C, B> = self.assign(layouter, Value::known(r_unassigned))?;
 
